@@ -167,7 +167,7 @@ def oracle(k, n, d, cw, flips, en, out):
             return "enable=0: flags must stay 0 (got sec=%d ded=%d)" % (sec, ded)
         if bin(o ^ d).count("1") > len(flips) or (not flips and o != d):
             return "enable=0: data bits do not pass through (data %d, flips %s, got o=%d)" % (d, list(flips), o)
-        if cw == ref_encode(k, d) and o != ref_extract(k, w):
+        if ref_m_n(k)[1] == n and cw == ref_encode(k, d) and o != ref_extract(k, w):
             return "enable=0: want the received data bits %d, got o=%d" % (ref_extract(k, w), o)
         return None
     exp = expected(k, d, flips, en)
@@ -179,8 +179,8 @@ def oracle(k, n, d, cw, flips, en, out):
     if sec != wsec or ded != wded:
         return "%d flipped bit(s) %s: want sec=%d ded=%d, got sec=%d ded=%d" % (len(flips), list(flips), wsec, wded, sec, ded)
     # cross-check with the matrix-form reference on the reference code word (an agreeing encoder is not demanded
-    # by the property, so this is only evaluated when the encoders agree)
-    if cw == ref_encode(k, d):
+    # by the property, so this is only evaluated when code length and encoders agree)
+    if ref_m_n(k)[1] == n and cw == ref_encode(k, d):
         rd, rsec, rded = ref_decode(k, w)
         if (rsec, rded) != (sec, ded) or (rd is not None and rd != o):
             return "matrix-form reference decodes to (%s,%d,%d), decoder gave (%d,%d,%d)" % (rd, rsec, rded, o, sec, ded)
@@ -273,21 +273,25 @@ def job_small(lean, rng, k, monitor_only=False):
     return res
 
 
-def job_large(lean, rng, k, words, pairs, monitor_only=False, garbage=32, fixed=True):
+def job_large(lean, rng, k, words, pairs, monitor_only=False, garbage=32, fixed=True, selfcheck=True):
     """k large: `words` data words (all-0, all-1, then random) x ALL single flips x (all pairs if pairs is None,
     else `pairs` sampled pairs) with enable=1, plus enable=0 on a subset and `garbage` arbitrary input words."""
-    res = {"name": "ecc k=%d words=%d%s pairs=%s" % (k, words, "" if fixed else " random", "all" if pairs is None else pairs), "cases": 0,
+    res = {"name": "ecc k=%d words=%d%s pairs=%s" % (k, words, {True: "", False: " random"}.get(fixed, " " + str(fixed)), "all" if pairs is None else pairs), "cases": 0,
            "nontrivial": 0, "exhaustive": False, "hist": {}, "samples": [], "dis": []}
     r = _build(k, res)
     if r is None:
         return res
     n = r.n
-    msg = r.selfcheck(rng, 1)
+    msg = r.selfcheck(rng, 1) if selfcheck else None
     if msg:
         res["dis"].append(_mk_dis("harness-selfcheck", k, msg))
     if r.widths != (k, n + 1, n + 1, k, 1, 1, 1):
         res["dis"].append(_mk_dis("correspondence", k, "port widths %r, model has (k,n+1,n+1,k,1,1,1) with n=%d" % (r.widths, n)))
-    if fixed:
+    if fixed == "zero":
+        datas = [0]
+    elif fixed == "ones":
+        datas = [(1 << k) - 1]
+    elif fixed:
         datas = [0, (1 << k) - 1][:words] + [rng.getrandbits(k) for _ in range(max(0, words - 2))]
     else:
         datas = [rng.getrandbits(k) for _ in range(words)]
@@ -360,6 +364,37 @@ def job_large(lean, rng, k, words, pairs, monitor_only=False, garbage=32, fixed=
     return res
 
 
+def job_corpus(lean, rng, cases, monitor_only=False):
+    """corpus/C18/*.json: {"k", "data", "flips", "enable"} cases on the real code (oracle) and on the model."""
+    res = {"name": "corpus k=%s (%d cases)" % (",".join(str(k) for k in sorted({c["k"] for c in cases})), len(cases)), "cases": 0, "nontrivial": 0, "exhaustive": False, "hist": {},
+           "samples": [], "dis": []}
+    cache = {}
+    for c in cases:
+        k, d, flips, en = c["k"], c["data"], tuple(c["flips"]), c["enable"]
+        if k not in cache:
+            cache[k] = _build(k, res)
+        r = cache[k]
+        if r is None:
+            continue
+        cw = r.encode(d)
+        w = cw
+        for j in flips:
+            w ^= 1 << j
+        out = r.decode(en, w)
+        res["cases"] += 1
+        res["nontrivial"] += 1 if (out[1] or out[2]) else 0
+        m = oracle(k, r.n, d, cw, flips, en, out)
+        if m:
+            res["dis"].append(_mk_dis("monitor", k, m, data=d, flips=list(flips), enable=en, codeword=cw, out=list(out),
+                                      corpus=c.get("corpus")))
+        if not monitor_only:
+            a = lean.call_batch(["enc %d %d" % (k, d), "dec %d %d %d" % (k, en, w)])
+            if a[0] != str(cw) or a[1] != "%d %d %d" % out:
+                res["dis"].append(_mk_dis("correspondence", k, "corpus case", data=d, flips=list(flips), enable=en,
+                                          impl=[cw, list(out)], model=a, corpus=c.get("corpus")))
+    return res
+
+
 # ---------------------------------------------------------------------------------------------------------
 # pool
 
@@ -389,7 +424,7 @@ def run_pool(seed, jobs, monitor_only=False, procs=None):
     import multiprocessing as mp
     _JOBS = jobs
     _INFO = (seed, monitor_only)
-    procs = procs or min(len(jobs), int(os.environ.get("VERIF_PROCS", "0")) or 6)
+    procs = procs or min(len(jobs), int(os.environ.get("VERIF_PROCS", "0")) or (os.cpu_count() or 4))
     if procs <= 1 or len(jobs) <= 1:
         out = [_worker(i) for i in range(len(jobs))]
     else:
